@@ -16,7 +16,7 @@ let parse_rule (m : string) : ffrule = match m with
   | "current" -> rule_current
   | "fixed" -> rule_fixed
   | _ when Stdlib.String.length m = 4 ->
-    let b i = m.[i] = '1' in
+    let b i = (Stdlib.String.get m (i)) = '1' in
     { rl_dedupe = b 0; rl_known = b 1; rl_guard = b 2; rl_check_first = b 3 }
   | _ -> failwith ("bad FFMODE " ^ m)
 
